@@ -575,8 +575,10 @@ fn level2_case(ctx: &mut Ctx, idx: usize, r: &mut Rng, idle: bool, q: &Q, fixed:
             bad = Some(format!("final frame {:?} vs non-terminal {:?}", c19::clip(&last, 80), c19::clip(&plain_text, 80)));
         }
     } else {
-        // header (names are not cut with an ellipsis by the code: compare name lists), separator, body
-        let wide_header = tty_lines[0].chars().count() > w as usize;
+        // header, separator, body.  With fewer than 2 cells per column some columns are narrower than
+        // 2 and their cells are cut without an ellipsis: then only the shape is compared.
+        let ncols = plain_lines[0].split_whitespace().count();
+        let wide_header = tty_lines[0].chars().count() > w as usize || (w as usize) < 2 * ncols;
         for (i, l) in tty_lines.iter().enumerate() {
             if i == 1 {
                 if !l.chars().all(|c| c == '-') {
@@ -589,7 +591,7 @@ fn level2_case(ctx: &mut Ctx, idx: usize, r: &mut Rng, idle: bool, q: &Q, fixed:
             } else {
                 plain_lines[2..].iter().any(|p| same_cells(l, p))
             };
-            if !ok && !(i == 0 && wide_header) {
+            if !ok && !wide_header {
                 bad = Some(format!("line {} of the final frame {:?} does not show the cells of {:?}", i, c19::clip(l, 160), c19::clip(plain_lines.get(i).unwrap_or(&""), 160)));
                 break;
             }
